@@ -237,8 +237,8 @@ class BufferStore(Store):
                 # one slot before the remaining reserved block
                 insert_idx = len(self.reserved_events)
             else:  # LIFO
-                # top of stack
-                insert_idx = len(self.ready_items)
+                # top of the unreserved items, just below the remaining reserved block
+                insert_idx = len(self.ready_items) - len(self.reserved_events)
 
             # 7) Re‑insert it
             self.ready_items.insert(insert_idx, item)
@@ -566,7 +566,11 @@ class BufferStore(Store):
             item_to_put = self.items.pop(item_index)  # Remove the first item
             #print(item_to_put, item)
             if len(self.ready_items)+ len(self.items) < self.capacity:
-                self.ready_items.append(item_to_put[0])
+                if self.mode == "LIFO":
+                    # reserved items are the top len(reserved_events) entries: keep them on top
+                    self.ready_items.insert(len(self.ready_items) - len(self.reserved_events), item_to_put[0])
+                else:
+                    self.ready_items.append(item_to_put[0])
                 #print(f"T={self.env.now:.2f} bufferstore finished moving item {item[0].id, item[1]} moved to ready_items")
                 self._trigger_reserve_get(None)
                 self._trigger_reserve_put(None)
